@@ -207,7 +207,10 @@ def conts(fam, tier, lo):
 FAM_LO = {"join": 0, "try_join": 0, "race": 1, "race_ok": 0, "merge": 0, "zip": 1, "chain": 0}
 GROUP_SPECS = [("future_group", "plain", 0), ("future_group", "keyed", 0), ("future_group", "keyed", 3),
                ("stream_group", "plain", 0), ("stream_group", "keyed", 0), ("stream_group", "plain", 2)]
-CO_SPECS = [("co", "co", 0), ("co", "co", 1), ("co", "co", 3), ("co", "co", 6), ("co", "vec", 0), ("co", "vec", 2), ("co", "vec", 5)]
+# ("co", *, 999): batch runs (co.rs gen_batch): source lengths next to 16 / 32 / 64 / 96, dozens of closure futures in flight,
+# all owed wake-ups delivered together, at most one failure at any position
+CO_SPECS = [("co", "co", 0), ("co", "co", 1), ("co", "co", 3), ("co", "co", 6), ("co", "vec", 0), ("co", "vec", 2), ("co", "vec", 5),
+            ("co", "co", 999), ("co", "vec", 999)]
 WAIT_SPECS = [("wait_until", "x", 2), ("wait_until_stream", "x", 2)]
 
 
